@@ -1392,6 +1392,204 @@ pub fn replay_under_miri(root: &Path, path: &str, rep: &Replay) -> i32 {
     }
 }
 
+/// `simctl selftest replayfuzz`: soundness of the oracles on *edited* histories. The minimiser
+/// (and anybody replaying a trace recorded on another tree) executes operation lists that the
+/// generator never produced: operations removed, repeated or reordered, ids that no longer
+/// exist. On the unchanged library every such list must still be judged clean - a failure
+/// here is a harness flaw (exit 2), never a finding.
+pub fn cmd_selftest_replayfuzz(runs: u64, seed: u64) -> i32 {
+    use crate::rng::Rng;
+    use std::sync::atomic::{AtomicU64, Ordering};
+    crate::core::install_panic_hook();
+    let mut bad = 0u64;
+    for def in l1::worlds() {
+        let next = AtomicU64::new(0);
+        let found: std::sync::Mutex<Vec<String>> = std::sync::Mutex::new(vec![]);
+        let executed = AtomicU64::new(0);
+        std::thread::scope(|sc| {
+            for _ in 0..16 {
+                sc.spawn(|| {
+                    let mut env = crate::core::Env::new();
+                    loop {
+                        let r = next.fetch_add(1, Ordering::SeqCst);
+                        if r >= runs {
+                            break;
+                        }
+                        let (cfg, mut rng) = l1::draw_run_cfg(def, seed ^ 0x5eed_f022, r, &Cfg::new());
+                        env.reset();
+                        let ops = (def.gen_run)(&cfg, &mut rng, &mut env);
+                        if !env.fails.is_empty() {
+                            continue;
+                        }
+                        let mut ops: Vec<crate::core::Op> = ops.into_iter().chain(env.finish_ops.clone()).collect();
+                        let mut frng = Rng::for_run(seed, "replayfuzz", r);
+                        // three rounds of edits of the kinds the minimiser and a foreign tree produce
+                        for _ in 0..3 {
+                            if ops.is_empty() {
+                                break;
+                            }
+                            match frng.below(4) {
+                                0 => {
+                                    // drop a random subset
+                                    let keep = 30 + frng.below(60);
+                                    ops.retain(|_| frng.pct(keep));
+                                }
+                                1 => {
+                                    // drop a contiguous chunk
+                                    let a = frng.below(ops.len() as u64) as usize;
+                                    let b = (a + 1 + frng.below(8) as usize).min(ops.len());
+                                    ops.drain(a..b);
+                                }
+                                2 => {
+                                    // repeat an operation somewhere later
+                                    let a = frng.below(ops.len() as u64) as usize;
+                                    let at = a + frng.below((ops.len() - a) as u64 + 1) as usize;
+                                    let o = ops[a];
+                                    ops.insert(at.min(ops.len()), o);
+                                }
+                                _ => {
+                                    // swap two neighbours
+                                    if ops.len() >= 2 {
+                                        let a = frng.below(ops.len() as u64 - 1) as usize;
+                                        ops.swap(a, a + 1);
+                                    }
+                                }
+                            }
+                            let (fails, _) = l1::execute(def, &cfg, &ops, &mut env);
+                            executed.fetch_add(1, Ordering::SeqCst);
+                            if let Some(f) = fails.iter().find(|f| f.prop != "HARNESS" || f.fatal) {
+                                let mut g = found.lock().unwrap();
+                                if g.len() < 5 {
+                                    g.push(format!("run {} cfg {:?}: {}:{} at op {}: {}\n    ops: {:?}", r, cfg, f.prop, f.oracle, f.at_op, f.msg, l1::render_ops(def, &ops)));
+                                }
+                                break;
+                            }
+                        }
+                    }
+                });
+            }
+        });
+        let found = found.into_inner().unwrap();
+        println!("replayfuzz {}: {} edited histories executed, {} judged violating", def.name, executed.load(Ordering::SeqCst), found.len());
+        for f in &found {
+            println!("  {}", f);
+        }
+        bad += found.len() as u64;
+    }
+    // L2: edited choice tapes (truncated, entries changed or removed); an exhausted tape answers 0
+    for def in l2::scenarios() {
+        let next = AtomicU64::new(0);
+        let found: std::sync::Mutex<Vec<String>> = std::sync::Mutex::new(vec![]);
+        let executed = AtomicU64::new(0);
+        let l2_runs = runs / 4 + 1;
+        std::thread::scope(|sc| {
+            for _ in 0..16 {
+                sc.spawn(|| loop {
+                    let r = next.fetch_add(1, Ordering::SeqCst);
+                    if r >= l2_runs {
+                        break;
+                    }
+                    let mut rng = Rng::for_run(seed ^ 0x5eed_f022, def.name, r);
+                    let cfg = (def.draw_cfg)(&mut rng);
+                    let out = l2::run(def, &cfg, l2::Chooser::generate(rng));
+                    if !out.fails.is_empty() {
+                        continue;
+                    }
+                    let mut tape = out.tape;
+                    let mut frng = Rng::for_run(seed, "tapefuzz", r);
+                    for _ in 0..3 {
+                        if tape.is_empty() {
+                            break;
+                        }
+                        match frng.below(3) {
+                            0 => tape.truncate(frng.below(tape.len() as u64) as usize),
+                            1 => {
+                                let a = frng.below(tape.len() as u64) as usize;
+                                tape[a] = frng.below(8) as u32;
+                            }
+                            _ => {
+                                let a = frng.below(tape.len() as u64) as usize;
+                                tape.remove(a);
+                            }
+                        }
+                        let o = l2::run(def, &cfg, l2::Chooser::replay(tape.clone()));
+                        executed.fetch_add(1, Ordering::SeqCst);
+                        if let Some(f) = o.fails.first() {
+                            let mut g = found.lock().unwrap();
+                            if g.len() < 5 {
+                                g.push(format!("run {} cfg {:?}: {}:{}: {}\n    tape: {:?}", r, cfg, f.prop, f.oracle, f.msg, tape));
+                            }
+                            break;
+                        }
+                    }
+                });
+            }
+        });
+        let found = found.into_inner().unwrap();
+        println!("replayfuzz {}: {} edited tapes executed, {} judged violating", def.name, executed.load(Ordering::SeqCst), found.len());
+        for f in &found {
+            println!("  {}", f);
+        }
+        bad += found.len() as u64;
+    }
+    // L3: edited schedules (truncated, decisions changed) and zeroed draws, tolerant replay
+    #[cfg(feature = "l3")]
+    {
+        l3::install_sched_hook();
+        for def in l3::scenarios() {
+            let mut found: Vec<String> = vec![];
+            let mut executed = 0u64;
+            let l3_runs = runs / 40 + 1;
+            for r in 0..l3_runs {
+                let (cfg, _) = l3::draw_run_cfg(def, seed ^ 0x5eed_f022, r, &Cfg::new());
+                let (trace, fails) = l3::record_one(def, seed ^ 0x5eed_f022, r);
+                if !fails.is_empty() {
+                    continue;
+                }
+                let mut tr = trace;
+                let mut frng = Rng::for_run(seed, "schedfuzz", r);
+                for _ in 0..3 {
+                    if tr.decisions.is_empty() {
+                        break;
+                    }
+                    match frng.below(3) {
+                        0 => tr.decisions.truncate(frng.below(tr.decisions.len() as u64) as usize),
+                        1 => {
+                            let a = frng.below(tr.decisions.len() as u64) as usize;
+                            tr.decisions[a] = frng.below(6) as u32;
+                        }
+                        _ => {
+                            for d in tr.draws.iter_mut() {
+                                *d = 0;
+                            }
+                        }
+                    }
+                    let (fails, _) = l3::replay(def, &cfg, &tr);
+                    executed += 1;
+                    if let Some(f) = fails.first() {
+                        if found.len() < 5 {
+                            found.push(format!("run {} cfg {:?}: {}:{}: {}\n    decisions: {:?} draws: {:?}", r, cfg, f.prop, f.oracle, f.msg, tr.decisions, tr.draws));
+                        }
+                        break;
+                    }
+                }
+            }
+            println!("replayfuzz {}: {} edited schedules executed, {} judged violating", def.name, executed, found.len());
+            for f in &found {
+                println!("  {}", f);
+            }
+            bad += found.len() as u64;
+        }
+    }
+    if bad > 0 {
+        eprintln!("harness error: the oracles object to edited histories on the unchanged library (see above)");
+        2
+    } else {
+        println!("replay-fuzz self-test passed");
+        0
+    }
+}
+
 /// `simctl selftest probes`: every rare branch / fault kind the design cares about must
 /// actually be reached by the quick budget. A probe stuck at zero fails the self-test
 /// (exit 2: the workload or fault mix must change), never a check.
